@@ -246,7 +246,7 @@ ANCHOR_DOCS = (
     "{&x k: &y 1, j: *y}",
     "[&x {a: 1}, *x, {a: 2}]",
     "{k: &x [1, 2], j: *x}",
-    "{r: [&x a, &x b]}",
+    "{r: [&x a, &y b, *x]}",
     "{base: &x {a: 1}, d: {<<: *x, b: 2}}",
     "!!set {&x a: null, b: null}",
     "{s: !!set {&x a: null, b: null}}",
@@ -300,10 +300,24 @@ def position_findings(items, oracle):
     for it, o in zip(items, oracle):
         if it[0] != "n" or it[4] or "virtual-continuation" in o.from_code or not Q.is_scalar(o.node):
             continue
-        if it[2] is o.parent and it[3] == o.ref:
+        if _same_position(it[2], it[3], o):
+            continue
+        if Q.is_set(o.parent):
+            # members are unique within a set: a different (parent, ref) cannot be another occurrence
+            # of the member, it is a coordinate defect (C02)
+            out.append("illformed")
             continue
         out.append("wrong-occurrence" if _holds(it[2], it[3], it[1]) else "illformed")
     return out
+
+
+def _same_position(parent, ref, o):
+    if parent is not o.parent:
+        return False
+    if Q.is_seq(o.parent) and isinstance(ref, int) and not isinstance(ref, bool):
+        n = len(o.parent)
+        return -n <= ref < n and ref % n == o.ref
+    return ref == o.ref
 
 
 def _ids(items=None, oracle=None):
@@ -374,9 +388,9 @@ def explain_by_model(segs, data, items):
     return None
 
 
-def optional_model(segs, data):
+def optional_model(segs, data, defects=()):
     """Known defect of optional mode: a null met before the last segment is yielded instead of ending that branch."""
-    ctx = Q._Ctx(())
+    ctx = Q._Ctx(defects)
     cur = [(Q.Result(data, None, None), False)]
     segs = [tuple(s) for s in segs]
     i = 0
@@ -387,36 +401,68 @@ def optional_model(segs, data):
             if frozen:
                 nxt.append((r, True))
                 continue
-            for c in Q._select(segs, i, r, True, ctx):
+            for c in Q._probe(segs, i, r, True, ctx):
                 nxt.append((c, c.node is None and not c.virtual and i + step < len(segs)))
         cur = nxt
         i += step
     return [r for r, _ in cur]
 
 
+def explain_optional(segs, data, items):
+    """-> tuple of model names that reproduce the optional-mode answer exactly, else None."""
+    subsets = [()] + list(_model_subsets())
+    for c in subsets:
+        try:
+            if c and same_nodes(items, Q.query(segs, data, defects=c)):
+                return c
+            if same_nodes(items, optional_model(segs, data, c)):
+                return c + ("optional-extra-none",)
+        except (Q.DefectModelCrash, Q.SpecRaises, Q.SpecUndefined):
+            continue
+    return None
+
+
 _DETERMINISTIC = ("key", "idx", "slice", "anchor", "coll")
 
 
-def has_dead_deterministic_branch(segs, data):
+def has_dead_deterministic_branch(segs, data, defects=()):
     """Would optional mode try to CREATE something?  (a key/index/anchor/collector segment that selects
     nothing from a non-null node reached by the prefix)"""
-    ctx = Q._Ctx(())
+    ctx = Q._Ctx(defects)
     cur = [Q.Result(data, None, None)]
     segs = [tuple(s) for s in segs]
     i = 0
-    while i < len(segs):
-        step = Q.collector_span(segs, i) if segs[i][0] == "coll" and segs[i][1] == "" else 1
-        nxt = []
-        for r in cur:
-            if r.node is None and not r.virtual:
-                continue
-            sel = Q._select(segs, i, r, True, ctx)
-            if not sel and segs[i][0] in _DETERMINISTIC:
-                return True
-            nxt.extend(sel)
-        cur = nxt
-        i += step
+    try:
+        while i < len(segs):
+            step = Q.collector_span(segs, i) if segs[i][0] == "coll" and segs[i][1] == "" else 1
+            nxt = []
+            for r in cur:
+                if r.node is None and not r.virtual:
+                    continue
+                sel = Q._probe(segs, i, r, True, ctx)
+                if not sel and segs[i][0] in _DETERMINISTIC:
+                    return True
+                nxt.extend(sel)
+            cur = nxt
+            i += step
+    except (Q.DefectModelCrash, Q.SpecUndefined):
+        return False
     return False
+
+
+def defect_that_kills_a_branch(segs, data):
+    """A known-defect model under which the path reaches a missing deterministic branch (so that the
+    real optional-mode query tries to create nodes although the documented selection needs none)."""
+    applicable = []
+    if any(s[0] == "search" and s[2] != "." for s in segs):
+        applicable.append("stale-matches")
+    if any(s[0] == "slice" for s in segs):
+        applicable.append("negative-slice-bound")
+    for n in range(1, len(applicable) + 1):
+        for c in itertools.combinations(applicable, n):
+            if has_dead_deterministic_branch(segs, data, c):
+                return c
+    return None
 
 
 class Finding(object):
@@ -431,13 +477,20 @@ def compare_required(segs, data, outcome, oracle, clause="required"):
     """-> (list of Finding, agreed: bool)"""
     sk = kinds_sig(segs)
     if isinstance(oracle, Q.SpecRaises):
-        if outcome[0] in ("yamlpath", "unmatched"):
+        # the oracle expects a library exception here (always a from-code rule)
+        if outcome[0] == "yamlpath":
             return [], True
         if outcome[0] == "crash":
             return [Finding("witness", "%s/crash/%s@%s" % (PROP, outcome[1], outcome[2]),
                             "query raised a non-library exception: " + outcome[3], clause,
                             describe(outcome), describe_oracle(oracle))], False
-        return [Finding("oos", "from-code-disagreement/" + oracle.tag, "", clause)], False
+        model = explain_by_model(segs, data, outcome[1] if outcome[0] == "ok" else [])
+        if model is not None:
+            return [Finding("witness", "%s/%s" % (PROP, "+".join(model)),
+                            "the real answer is exactly what the known defect model %s predicts"
+                            % "+".join(model), clause, describe(outcome), describe_oracle(oracle))], False
+        return [Finding("oos", "from-code-disagreement/" + oracle.tag, "", clause,
+                        describe(outcome), describe_oracle(oracle))], False
     if outcome[0] == "crash":
         return [Finding("witness", "%s/crash/%s@%s" % (PROP, outcome[1], outcome[2]),
                         "query raised a non-library exception instead of selecting the documented nodes: "
@@ -467,10 +520,10 @@ def compare_required(segs, data, outcome, oracle, clause="required"):
         if not pos:
             return [], True
         if "wrong-occurrence" in pos:
-            return [Finding("witness", "%s/wrong-occurrence/%s" % (PROP, sk),
+            return [Finding("witness", "%s/wrong-occurrence/%s" % (PROP, segs[-1][0] if segs else "root"),
                             "an equal scalar at a different position was selected", clause,
                             describe(outcome), describe_oracle(oracle))], False
-        return [Finding("oos", "coordinates-illformed(C02)/" + sk, "", clause)], True
+        return [Finding("oos", "coordinates-illformed(C02)/" + segs[-1][0], "", clause)], True
     # ---- disagreement on the node sequence: root cause
     model = explain_by_model(segs, data, items)
     if model is not None:
@@ -487,9 +540,40 @@ def compare_required(segs, data, outcome, oracle, clause="required"):
                         describe(outcome), describe_oracle(oracle))], False
     if outcome[0] == "unmatched":
         dc = "unmatched"
-    return [Finding("witness", "%s/unexplained/%s/%s" % (PROP, dc, sk),
+    return [Finding("witness", "%s/unexplained/%s/%s" % (PROP, dc, localize(segs, data)),
                     "the selected node sequence differs from the documented selection (%s)" % dc, clause,
                     describe(outcome), describe_oracle(oracle))], False
+
+
+def _node_kind(n):
+    return "map" if Q.is_map(n) else "vlist" if isinstance(n, Q.VList) else "seq" if Q.is_seq(n) \
+        else "set" if Q.is_set(n) else "null" if n is None else "scalar"
+
+
+def localize(segs, data):
+    """Where an unexplained disagreement starts: the last segment of the SHORTEST prefix of the path whose
+    real answer already differs from the oracle's, with the kinds of node that segment is applied to
+    (e.g. 'key@map', 'search.@seq+set', 'all-last@seq').  Same root cause -> same key on different inputs."""
+    for j in range(1, len(segs) + 1):
+        prefix = segs[:j]
+        try:
+            want = Q.query(prefix, data)
+            before = Q.query(prefix[:-1], data)
+        except (Q.SpecRaises, Q.SpecUndefined):
+            continue
+        got = real_required(data, pathgen.render(prefix, "."))
+        if got[0] == "ok" and same_nodes(got[1], want):
+            continue
+        if got[0] == "unmatched" and not want:
+            continue
+        s = prefix[-1]
+        kind = ("search" + ("." if s[2] == "." else "@") + ("!" if s[1] else "")) if s[0] == "search" else s[0]
+        if s[0] in ("all", "trav"):
+            kind += "-last" if j == len(segs) or True else ""
+        kinds = sorted(set(_node_kind(r.node) for r in before))
+        return "%s@%s" % (kind, "+".join(kinds))
+    s = segs[-1]
+    return "%s@whole-path" % s[0]
 
 
 def same_outcome(a, b):
@@ -511,6 +595,15 @@ def check_case(data, segs, fresh_loader=None, plain0=None):
         return [Finding("oos", "render-parse-mismatch(C08)", "", "parse")], None, None
     try:
         oracle = Q.query(segs, data)
+    except Q.MatchRaised:
+        # the library's own scalar comparison raised inside the oracle (C12/C15 matter); only a crash of
+        # the query itself is reported here
+        req = real_required(data, dot)
+        if req[0] == "crash":
+            return [Finding("witness", "%s/crash/%s@%s" % (PROP, req[1], req[2]),
+                            "query raised a non-library exception: " + req[3], "required",
+                            describe(req), "a selection")], None, None
+        return [Finding("oos", "comparison-raised(C12)", "", "oracle")], None, None
     except Q.SpecUndefined:
         return [Finding("oos", "undefined-by-documentation", "", "oracle")], None, None
     except Q.SpecRaises as sr:
@@ -525,7 +618,7 @@ def check_case(data, segs, fresh_loader=None, plain0=None):
     if ok_slash:
         req2 = real_required(data, slash)
         if not same_outcome(req, req2):
-            findings.append(Finding("witness", "%s/notation-mismatch/%s" % (PROP, kinds_sig(segs)),
+            findings.append(Finding("witness", "%s/notation-mismatch" % PROP,
                                     "dot and forward-slash notation give different answers", "notation",
                                     {"dot": describe(req), "slash": describe(req2)}, "equal"))
     else:
@@ -535,7 +628,7 @@ def check_case(data, segs, fresh_loader=None, plain0=None):
     ex = real_exists(data, dot)
     if agreed:
         if isinstance(oracle, Q.SpecRaises):
-            ok = ex[0] in ("yamlpath", "unmatched")
+            ok = ex[0] == "yamlpath"
             exp = "raises"
         else:
             exp = bool(len(oracle))
@@ -544,7 +637,7 @@ def check_case(data, segs, fresh_loader=None, plain0=None):
             if ex[0] == "crash":
                 key = "%s/crash/%s@%s" % (PROP, ex[1], ex[2])
             else:
-                key = "%s/exists-disagrees/%s" % (PROP, kinds_sig(segs))
+                key = "%s/exists-disagrees/expected-%s" % (PROP, str(exp).lower())
             findings.append(Finding("witness", key, "exists() disagrees with the required-match query", "exists",
                                     list(ex[:3]), exp))
 
@@ -552,37 +645,64 @@ def check_case(data, segs, fresh_loader=None, plain0=None):
     reloaded = None
     opt_sig = "-"
     if agreed and not isinstance(oracle, Q.SpecRaises) and len(oracle):
-        if has_dead_deterministic_branch(segs, data):
+        culprit = None
+        if "virtual-continuation" in oracle.from_code:
+            # optional-mode continuation past a virtual result is defined nowhere
+            findings.append(Finding("oos", "optional/virtual-continuation-undefined", "", "optional"))
+            opt_sig = "virtual"
+        elif has_dead_deterministic_branch(segs, data):
             # optional mode would build the missing branch (its documented purpose); the statement's
             # "a path that already exists" is read as: no branch of the path is missing
             findings.append(Finding("oos", "optional/would-create-missing-branch", "", "optional"))
             opt_sig = "dead"
         else:
-            opt = real_optional(data, dot)
-            opt_sig = opt[0]
-            if plain0 is not None and gen.plain(data) != plain0:
-                findings.append(Finding("oos", "optional/mutated-document(C09)", "", "optional"))
-                reloaded = fresh_loader() if fresh_loader else None
-            if opt[0] == "crash":
-                findings.append(Finding("witness", "%s/optional-crash/%s@%s" % (PROP, opt[1], opt[2]),
-                                        "optional-match query raised a non-library exception: " + opt[3],
-                                        "optional", describe(opt), describe_oracle(oracle)))
-            elif opt[0] != "ok" or not same_nodes(opt[1], oracle):
-                model = optional_model(segs, data) if reloaded is None else None
-                if opt[0] == "ok" and model is not None and same_nodes(opt[1], model):
-                    key = "%s/optional-extra-none" % PROP
-                    what = ("optional-match on an existing path also yields the null a branch of the path "
-                            "crosses (required-match ends that branch)")
-                elif oracle.from_code:
-                    findings.append(Finding("oos", "from-code-disagreement/optional/" +
-                                            "+".join(sorted(oracle.from_code)), "", "optional"))
-                    key = None
-                else:
-                    key = "%s/optional-differs/%s" % (PROP, kinds_sig(segs))
-                    what = "optional-match on an existing path gives a different sequence than required-match"
-                if key:
-                    findings.append(Finding("witness", key, what, "optional", describe(opt),
-                                            describe_oracle(oracle)))
+            culprit = defect_that_kills_a_branch(segs, data)
+            if culprit is not None and fresh_loader is not None:
+                # a known defect selects an extra node whose continuation is missing: the real call would
+                # create nodes, so it runs on a throw-away load; any difference is that defect's doing
+                target = fresh_loader()
+                want = Q.query(segs, target)
+                opt = real_optional(target, dot)
+                opt_sig = opt[0]
+                if opt[0] == "crash":
+                    findings.append(Finding("witness", "%s/optional-crash/%s@%s" % (PROP, opt[1], opt[2]),
+                                            "optional-match query raised a non-library exception: " + opt[3],
+                                            "optional", describe(opt), describe_oracle(want)))
+                elif opt[0] != "ok" or not same_nodes(opt[1], want):
+                    findings.append(Finding("witness", "%s/%s" % (PROP, "+".join(culprit)),
+                                            "optional-match on an existing path raises or creates nodes because the "
+                                            "known defect %s selects a node the documentation does not"
+                                            % "+".join(culprit), "optional", describe(opt), describe_oracle(want)))
+            else:
+                opt = real_optional(data, dot)
+                opt_sig = opt[0]
+                if plain0 is not None and gen.plain(data) != plain0:
+                    findings.append(Finding("oos", "optional/mutated-document(C09)", "", "optional",
+                                            describe(opt), describe_oracle(oracle)))
+                    reloaded = fresh_loader() if fresh_loader else None
+                if opt[0] == "crash":
+                    findings.append(Finding("witness", "%s/optional-crash/%s@%s" % (PROP, opt[1], opt[2]),
+                                            "optional-match query raised a non-library exception: " + opt[3],
+                                            "optional", describe(opt), describe_oracle(oracle)))
+                elif opt[0] != "ok" or not same_nodes(opt[1], oracle):
+                    model = explain_optional(segs, data, opt[1]) if reloaded is None and opt[0] == "ok" else None
+                    if model is not None:
+                        key = "%s/%s" % (PROP, "+".join(model))
+                        what = ("optional-match on an existing path differs from required-match exactly as the known "
+                                "defect model %s predicts (optional-extra-none: the null a branch of the path crosses "
+                                "is yielded; required-match ends that branch)" % "+".join(model))
+                    elif oracle.from_code:
+                        findings.append(Finding("oos", "from-code-disagreement/optional/" +
+                                                "+".join(sorted(oracle.from_code)), "", "optional",
+                                                describe(opt), describe_oracle(oracle)))
+                        key = None
+                    else:
+                        key = "%s/optional-differs/%s" % (PROP, diff_class(opt[1], oracle)[0] if opt[0] == "ok"
+                                                          else opt[0])
+                        what = "optional-match on an existing path gives a different sequence than required-match"
+                    if key:
+                        findings.append(Finding("witness", key, what, "optional", describe(opt),
+                                                describe_oracle(oracle)))
 
     # signature ---------------------------------------------------------------
     nontrivial = bool(findings) or req[0] != "unmatched"
@@ -727,8 +847,17 @@ def plan(tier):
         spec = [("small5", "one", {}, 40), ("full3", "one", {}, 12), ("small3", "two-all", {}, 1),
                 ("small4", "sample", {"len": 2, "k": 400}, 8), ("small4", "sample", {"len": 3, "k": 150}, 16)]
         nrandom = 40000
+    elif tier == "mini":
+        # smoke / mutation-testing tier (not a reporting tier): ~110k cases
+        sets = {"small3": dict(max_nodes=3, max_depth=3, scalars=gen.SCALARS_SMALL)}
+        bounds = {"docs": "all trees N<=3 depth<=3 scalars {null,true,1,a}; anchor documents; 300 random trees",
+                  "paths": "every 1-segment path; 40 seeded 2-segment and 10 seeded 3-segment paths per document",
+                  "notations": "dot and forward-slash", "exhaustive": "documents x 1-segment paths"}
+        spec = [("small3", "one", {}, 12), ("small3", "sample", {"len": 2, "k": 40}, 30),
+                ("small3", "sample", {"len": 3, "k": 10}, 60)]
+        nrandom = 300
     else:
-        raise ValueError("tier must be quick or thorough")
+        raise ValueError("tier must be quick, thorough (or mini)")
     return sets, spec, nrandom, bounds
 
 
